@@ -94,7 +94,11 @@ CHECKS = {
     "C05": _db("Histories interleaved with reopen / optimize_storage / shrink_to_fit / backup+open-backup / copy / rename / "
                "reopen-with-the-other-file-variant on Db, DbFile and DbMemory; every maintenance step must stutter on the "
                "DbModel state and the full canonical dump (ids, endpoints, ordered properties, aliases, indexes with counts, "
-               "adjacency order of every node, elements order) taken after it must equal the model state.", "3.3, 4 C05"),
+               "adjacency order of every node, elements order) taken after it must equal the model state; in addition an "
+               "order-sensitive fingerprint of everything a reader sees (the dump lists as returned, the alias and index listings, the "
+               "ids of every index search in the order returned) is taken before and after each operation and must be equal "
+               "(DbTrace!TMaintain: order_same). Profiles with values of 40 KB - 2.3 MB and with integers hashing to the last slots of "
+               "the 64-slot tables.", "3.3, 4 C05"),
     "C06": _db("Every query of a generated history is executed in lock-step on DbMemory, DbFile, Db and DbAny (memory, file, "
                "mapped); TLC requires every variant's ok/result to equal the primary's and the primary's to conform to "
                "DbModel; the dumps of all variants must have equal digests after every step.", "3.3, 4 C06"),
